@@ -21,7 +21,7 @@ type applyCase struct {
 	RowNums  string        `json:"row_nums,omitempty"`
 }
 
-var c06VariantNames = append(append([]string{}, model.ShapeNames...), "aggregated", "selected", "copied", "zero-rows", "one-row", "one-row-of-a-sorted-frame")
+var c06VariantNames = append(append([]string{}, model.ShapeNames...), "aggregated", "selected", "copied", "zero-rows", "one-row", "one-row-of-a-sorted-frame", "70-rows", "70-rows-sparseperm")
 
 func c06Base() model.Frame {
 	N := model.Null()
@@ -70,6 +70,10 @@ func c06Variants() []c06Variant {
 	add(model.Build(base.Rows(nil)))
 	add(model.Build(base.Rows([]int{1})))
 	add(q.Sort(qframe.Order{Column: "i"}).Slice(3, 4))
+	// 70 rows (the base rows in a mixed order, repeated): beyond any blocked or unrolled loop
+	big := base.Rows(c07BigRows())
+	add(model.Build(big))
+	add(model.BuildShape(big, model.ShapeSparsePerm))
 	return c06vars
 }
 
